@@ -333,6 +333,34 @@ Definition w_queries (v : val) : val :=
       end
   | _ => bad
   end.
+(* ---- downward navigation across fragment boundaries (MelodyLoader.iterchildren_xt / _follow_href) ---- *)
+(* a child that carries an href is a placeholder: it is replaced by the element its id resolves to (None: the lookup raises) *)
+Definition follow_href (frs : list frag) (c : node) : option atom :=
+  match nhref c with
+  | None => Some (nh c)
+  | Some u => match by_uuid frs u with ROk h => Some h | RErr _ => None end
+  end.
+Definition raw_children (fr : frag) (h : atom) : list node :=
+  filter (fun n => match npar n with Some p => p =? h | None => false end) (fnodes fr).
+Definition children_xt (frs : list frag) (h : atom) : list (option atom) :=
+  match find_in_frags frs h with
+  | Some (fr, _) => map (follow_href frs) (raw_children fr h)
+  | None => []
+  end.
+(* input as w_queries; output: per handle the children in document order, placeholders followed (None where following fails) *)
+Definition w_children (v : val) : val :=
+  match v with
+  | VL [VB gi; VL frs; hs] =>
+      match all_some (map (dec_frag gi) frs), dec_atoms hs with
+      | Some frs, Some hs =>
+          match all_ok frs with
+          | RErr e => VE e
+          | ROk frs => VL (map (fun h => VL (map enc_opt (children_xt frs h))) hs)
+          end
+      | _, _ => bad
+      end
+  | _ => bad
+  end.
 Definition w_check_dups (v : val) : val :=
   match v with
   | VL [VB ignore; VL trees] =>
